@@ -6,9 +6,10 @@ Line-protocol front end of the C04 model.
 
     C04 (<legacy|new> (cfg …) (live0 …) (step …))
     C04 (held <legacy|new> ((k v) …) ((entity sval sval ctx) …))     -- kwargs of runs delayed by state_hold
+    C04 (kwnone <legacy|new> (q …) (ctx …))                          -- a decorator with kwargs=None (finding C04-F5)
     cfg  := (func expr (name …) (name …) watch ((k v) …))      -- expr names, any names
     expr := none | E ;  watch := none | (name …) ;  name := (entity part …)
-    E    := (eq n lit) | (ne n lit) | (eqn n n) | (isnone n) | (truthy n) | (intgt n k) | (and E E) | (or E E)
+    E    := (eq n lit) | (ne n lit) | (eqn n n) | (isnone n) | (truthy n) | (intgt n k) | (intnz n) | (and E E) | (or E E)
           | (not E) | (anyl E …)
     live0 := ((entity sval) …) ;  sval := none | (state ((k v) …))
     step := (op entity sval ctx) | (deq i)
@@ -27,6 +28,7 @@ inductive Ex where
   | isnone (n : Name)
   | truthy (n : Name)
   | intgt (n : Name) (k : Int)
+  | intnz (n : Name)               -- `int(n)` used for its truth value (a non-bool result)
   | and (a b : Ex)
   | or (a b : Ex)
   | not (a : Ex)
@@ -45,7 +47,16 @@ def pyStr : Val → Option (Option String)
   | .av a => some (some a)
   | .undef => none
 
-def pyInt (s : String) : Option Int := s.toInt?
+/-- Python `int(str)` on the values the harness uses: surrounding whitespace stripped, optional sign, decimal digits -/
+def pyInt (s : String) : Option Int :=
+  let cs := (s.toList.dropWhile Char.isWhitespace).reverse.dropWhile Char.isWhitespace |>.reverse
+  let body (ds : List Char) : Option Nat :=
+    if ds.isEmpty || !ds.all Char.isDigit then none
+    else some (ds.foldl (fun acc c => acc * 10 + (c.toNat - '0'.toNat)) 0)
+  match cs with
+  | '-' :: ds => (body ds).map (fun n => - (n : Int))
+  | '+' :: ds => (body ds).map (fun n => (n : Int))
+  | ds => (body ds).map (fun n => (n : Int))
 
 mutual
 /-- `none` = the evaluation raises -/
@@ -61,6 +72,10 @@ def Ex.eval (env : Env) : Ex → Option Bool
   | .intgt n k =>
     match pyStr (envGet env n) with
     | some (some s) => (pyInt s).map (fun i => decide (i > k))
+    | _ => none
+  | .intnz n =>
+    match pyStr (envGet env n) with
+    | some (some s) => (pyInt s).map (fun i => decide (i ≠ 0))
     | _ => none
   | .and a b =>
     match a.eval env with
@@ -106,6 +121,7 @@ partial def ex? : Sexp → Option Ex
   | .list [.atom "isnone", n] => (name? n).map Ex.isnone
   | .list [.atom "truthy", n] => (name? n).map Ex.truthy
   | .list [.atom "intgt", n, k] => do pure (Ex.intgt (← name? n) (← k.int?))
+  | .list [.atom "intnz", n] => (name? n).map Ex.intnz
   | .list [.atom "and", a, b] => do pure (Ex.and (← ex? a) (← ex? b))
   | .list [.atom "or", a, b] => do pure (Ex.or (← ex? a) (← ex? b))
   | .list [.atom "not", a] => (ex? a).map Ex.not
@@ -198,8 +214,23 @@ def runHeld (legacy : Bool) (kw : List (String × String)) (evs : List Ev) : Str
   let sp := evs.map (fun ev => sxRun (mkRun c ev))
   s!"ok (model {(sxl (sx "held" :: m)).render}) (spec {(sxl (sx "held" :: sp)).render}) (diag ())"
 
+/-- `kwnone`: a decorator with `kwargs=None`; qs = qualifies-flags of the delivered watched changes, ctxs their ids -/
+def runKwNone (legacy : Bool) (qs : List Bool) (ctxs : List Nat) : String :=
+  let mr := if legacy then Legacy.kwNoneRuns qs else New.kwNoneRuns qs
+  let me := if legacy then Legacy.kwNoneEvals qs else New.kwNoneEvals qs
+  let sr := (qs.zip ctxs).filterMap (fun p => if p.1 then some p.2 else none)
+  let shw (l : List Nat) := "(" ++ " ".intercalate (l.map toString) ++ ")"
+  s!"ok (model (kwnone {shw mr} {me})) (spec (kwnone {shw sr} {qs.length})) (diag ())"
+
 def handle (x : Sexp) : String :=
   match x with
+  | .list [.atom "kwnone", .atom sub, qs, cs] =>
+    match Sexp.listOf? Sexp.bool? qs, Sexp.listOf? Sexp.nat? cs with
+    | some qs, some cs =>
+      if sub == "legacy" then runKwNone true qs cs
+      else if sub == "new" then runKwNone false qs cs
+      else "err bad-subsystem"
+    | _, _ => "err parse"
   | .list [.atom "held", .atom sub, kw, evs] =>
     match kvs? kw, Sexp.listOf? ev? evs with
     | some kw, some evs =>
